@@ -96,6 +96,7 @@ func init() {
 		if prop != "C01" {
 			prof.Memory = 3 // the memory backend has nothing durable: not for C01
 		}
+		prof.TwoHandles = 3 // a second process on the same file (hookaido mcp opens the SQLite queue directly)
 		Register(&CheckSpec{
 			Prop: prop, World: "conc",
 			Gen:        func(t *rapid.T) *Program { return GenConcProgram(t, prof) },
